@@ -16,10 +16,11 @@ import (
 // ---- site selection ----
 
 // callMatches: cc calls the function/method identified by spec:
-//   "pkg/machine:Machine.setActiveStates"  static module function
-//   "iface:Tracer.TransitionEnd"           interface method by interface+name
-//   "method:Load"                          any method with that name (with recv filter in spec "method:Bool.Load")
-//   "builtin:append"
+//
+//	"pkg/machine:Machine.setActiveStates"  static module function
+//	"iface:Tracer.TransitionEnd"           interface method by interface+name
+//	"method:Load"                          any method with that name (with recv filter in spec "method:Bool.Load")
+//	"builtin:append"
 func (c *Ctx) callMatches(cc *ssa.CallCommon, spec string) bool {
 	switch {
 	case strings.HasPrefix(spec, "iface:"):
